@@ -278,6 +278,7 @@ def gen_layered_world(rng, i, two_layer=None, want_files=True, small=False, allo
             read["opts"]["root_prefix"] = True
             read["project"] = rng.pick(["proj", None, "p2"])
             read["usr_subdir"] = rng.pick(["/usr/lib", "/usr/etc", "/usr/share/x"])
+
             if read["project"] is None and rng.chance(0.15) and allow_refuse:
                 read["name"] = None            # both NULL: must be refused
             elif read["project"] is not None and rng.chance(0.3):
@@ -327,6 +328,10 @@ def gen_layered_world(rng, i, two_layer=None, want_files=True, small=False, allo
             if holder.get(key):
                 holder[key] = [d for d in holder[key] if not d.startswith("/")] or [".d"]
 
+    if (read["ep"] == "readConfig" and read["opts"].get("root_prefix") and not read["opts"].get("parsing_dirs") and read.get("project") is not None
+            and read.get("name") and (read.get("usr_subdir") or "").startswith("/") and rng.chance(0.12)):
+        # the vendor sub-directory spelled without its leading slash: with a project it is still joined below the root prefix
+        read["usr_subdir"] = read["usr_subdir"][1:]
     nodes = []
     eff_name = name_of(read)
     if not eff_name:
